@@ -156,3 +156,153 @@ with open(casefile) as f:
 X[0] = X[1] = None
 json.dump({"n": n, "bad": bad, "agree_model": agree_model}, open(outfile, "w"))
 '''
+
+
+# --------------------------------------------------------------------------
+# rich comparisons
+CMP = [("lt", "<"), ("le", "<="), ("eq", "=="), ("ne", "!="), ("gt", ">"), ("ge", ">=")]
+CBITS = {"lt": 1, "le": 2, "eq": 4, "ne": 8, "gt": 16, "ge": 32}
+
+
+def cbits(names):
+    return sum(CBITS[n] for n in (names or ()))
+
+
+_CHEAD = '''LOG = []
+BEH = {}
+X = [None, None]
+
+def _pos(o):
+    if X[0] is X[1]:
+        return "X"
+    return "L" if o is X[0] else ("R" if o is X[1] else "?")
+'''
+
+
+def _cmp_methods(role, sub):
+    out = []
+    for name, _ in CMP:
+        if sub & CBITS[name]:
+            tag = "%s.%s" % (role, name)
+            out.append("    def __%s__(self, other):\n        LOG.append(\"%s:\" + _pos(self) + _pos(other))\n"
+                       "        return BEH.get(\"%s\", NotImplemented)\n" % (name, tag, tag))
+    if not out:
+        out.append("    pass\n")
+    return "".join(out)
+
+
+def cmp_class_names(case):
+    """names of the generated classes a comparison case needs: {kind: class name}"""
+    d, t = case["defs"], case["tos"]
+    out = {}
+    if "C" in d:
+        out["C"] = "C_%d_%d" % (cbits(d["C"]), int(t["C"]))
+    if "S" in d:
+        out["S"] = "S_%d_%d_%d_%d" % (cbits(d["C"]), int(t["C"]), cbits(d["S"]), int(t["S"]))
+    if "D" in d:
+        out["D"] = "D_%d_%d" % (cbits(d["D"]), int(t["D"]))
+    return out
+
+
+def cmp_source(classes, compiled):
+    """classes: set of class names as produced by cmp_class_names (bases are added)."""
+    need = set(classes)
+    for n in list(need):
+        if n.startswith("S_"):
+            p = n.split("_")
+            need.add("C_%s_%s" % (p[1], p[2]))
+    kw = "cdef class" if compiled else "class"
+    deco = "@cython.total_ordering\n" if compiled else "@functools.total_ordering\n"
+    src = ["# cython: language_level=3\n" + ("cimport cython\n" if compiled else "import functools\n"), _CHEAD]
+
+    def emit(name, base, role, sub, to):
+        src.append("%s%s %s%s:\n%s\n" % (deco if to else "", kw, name, "(%s)" % base if base else "", _cmp_methods(role, sub)))
+    for n in sorted(x for x in need if x.startswith("C_")):
+        p = n.split("_")
+        emit(n, None, "C", int(p[1]), int(p[2]))
+    for n in sorted(x for x in need if x.startswith("S_")):
+        p = n.split("_")
+        emit(n, "C_%s_%s" % (p[1], p[2]), "S", int(p[3]), int(p[4]))
+    for n in sorted(x for x in need if x.startswith("D_")):
+        p = n.split("_")
+        emit(n, None, "D", int(p[1]), int(p[2]))
+    for name, sym in CMP:
+        src.append("def do_%s(x, y):\n    return x %s y\n\n" % (name, sym))
+    return "".join(src)
+
+
+# child driver (comparisons): argv = mode moddir modname casefile outfile seed
+CMP_CHILD = r'''
+import json, sys, os, importlib, types, random
+mode, moddir, modname, casefile, outfile, seed = sys.argv[1:7]
+if mode == "compiled":
+    sys.path.insert(0, moddir)
+    mod = importlib.import_module(modname)
+    assert mod.__file__.endswith(".so"), mod.__file__
+else:
+    mod = types.ModuleType(modname)
+    exec(compile(open(os.path.join(moddir, modname + ".py")).read(), modname, "exec"), mod.__dict__)
+CBITS = {"lt": 1, "le": 2, "eq": 4, "ne": 8, "gt": 16, "ge": 32}
+LOG, BEH, X = mod.LOG, mod.BEH, mod.X
+VAL = {"T": True, "F": False, "NI": NotImplemented}
+def pos(o):
+    if X[0] is X[1]: return "X"
+    return "L" if o is X[0] else ("R" if o is X[1] else "?")
+def mk(tag):
+    def f(self, other):
+        LOG.append(tag + ":" + pos(self) + pos(other))
+        return BEH.get(tag, NotImplemented)
+    return f
+_pycache = {}
+def pyclass(names):
+    key = tuple(sorted(names))
+    if key not in _pycache:
+        _pycache[key] = type("O", (object,), {"__%s__" % n: mk("O." + n) for n in names})
+    return _pycache[key]
+def cb(names): return sum(CBITS[n] for n in names)
+rng = random.Random(int(seed))
+bad = []
+n = 0
+agree_model = 0
+with open(casefile) as f:
+    for line in f:
+        case = json.loads(line)
+        n += 1
+        defs, tos = case["defs"], case["tos"]
+        def cls(k):
+            if k == "C": return getattr(mod, "C_%d_%d" % (cb(defs["C"]), int(tos["C"])))
+            if k == "S": return getattr(mod, "S_%d_%d_%d_%d" % (cb(defs["C"]), int(tos["C"]), cb(defs["S"]), int(tos["S"])))
+            if k == "D": return getattr(mod, "D_%d_%d" % (cb(defs["D"]), int(tos["D"])))
+            if k == "O": return pyclass(defs["O"])
+        x = cls(case["l"])()
+        y = x if case["same"] else cls(case["r"])()
+        X[0], X[1] = x, y
+        beh = case["beh"] if isinstance(case["beh"], dict) else {}
+        BEH.clear()
+        for k, ms in defs.items():
+            for m in ms:
+                tag = k + "." + m
+                v = beh.get(tag)
+                if v is None:
+                    v = rng.choice(("T", "F", "NI"))     # undecided by the model: no prediction may depend on it
+                BEH[tag] = VAL[v]
+        del LOG[:]
+        try:
+            res = getattr(mod, "do_" + case["op"])(x, y)
+            res = "T" if res is True else "F" if res is False else "?" + type(res).__name__
+        except TypeError:
+            res = "TypeError"
+        except BaseException as e:
+            res = "E:" + type(e).__name__
+        log = list(LOG)
+        if case["same"]:
+            want, iwant = [e[:-2] + "XX" for e in case["log"]], [e[:-2] + "XX" for e in case["ilog"]]
+        else:
+            want, iwant = case["log"], case["ilog"]
+        if res == case["ires"] and log == iwant:
+            agree_model += 1
+        if res != case["res"] or log != want:
+            bad.append({"i": n - 1, "res": res, "log": log})
+X[0] = X[1] = None
+json.dump({"n": n, "bad": bad, "agree_model": agree_model}, open(outfile, "w"))
+'''
